@@ -437,8 +437,28 @@ func runC15(p *core.Prog, r *core.Report) {
 		}
 	}
 	serve := p.Method("httpd", "Mux", "ServeHTTP")
-	for _, ref := range sx.FieldRefs(p.ModuleFuncs(), origin) {
-		ok := rwMethods[rootFn(ref.Fn)] || rootFn(ref.Fn) == serve
+	// who touches the wrapped writer: judged on the httpd package's inlined views (a helper of ServeHTTP that
+	// binds or resets the field is ServeHTTP) and on every other module function
+	var originFns []*ssa.Function
+	for _, fn := range p.ModuleFuncs() {
+		if rootFn(fn).Pkg != p.SPkgs["httpd"] {
+			originFns = append(originFns, fn)
+		}
+	}
+	for _, v := range pkgViews(p, "httpd") {
+		originFns = append(originFns, sx.WithClosures(v.Fn)...)
+	}
+	seenOrigin := map[ssa.Instruction]bool{}
+	for _, ref := range sx.FieldRefs(originFns, origin) {
+		src := rootFn(sx.SourceFunc(ref.Instr)) // the function whose code this is (a wrapper method expanded into a caller's view stays the wrapper's code)
+		if rwMethods[src] {
+			if o := sx.OrigInstr(ref.Instr); !seenOrigin[o] {
+				seenOrigin[o] = true
+				r.OK("C15-R6", "ResponseWriter.Origin used in "+fnName(src), p.Pos(ref.Instr.Pos()), "the wrapper's own method")
+			}
+			continue
+		}
+		ok := rootFn(ref.Fn) == serve
 		if rootFn(ref.Fn) == serve {
 			// only set/reset
 			if fa, isFA := ref.Instr.(*ssa.FieldAddr); isFA {
@@ -451,7 +471,22 @@ func runC15(p *core.Prog, r *core.Report) {
 		}
 		r.Check(ok, "C15-R6", "ResponseWriter.Origin used in "+fnName(ref.Fn), p.Pos(ref.Instr.Pos()), "wrapper's own method or ServeHTTP's set/reset", "the wrapped http.ResponseWriter is used outside ResponseWriter's methods: a write through it is not recorded")
 	}
+	sameVal := func(a, b ssa.Value) bool {
+		a, b = sx.Unspill(a), sx.Unspill(b)
+		if a == b {
+			return true
+		}
+		ca, ok1 := a.(*ssa.Const)
+		cb, ok2 := b.(*ssa.Const)
+		return ok1 && ok2 && ca.Value != nil && cb.Value != nil && ca.Value.ExactString() == cb.Value.ExactString()
+	}
+	var rwList []*ssa.Function
 	for fn := range rwMethods {
+		rwList = append(rwList, fn)
+	}
+	sort.Slice(rwList, func(i, j int) bool { return rwList[i].String() < rwList[j].String() })
+	for _, src := range rwList {
+		fn := p.Inl(src) // Write's implicit WriteHeader(200) is seen in place, whether it is a call or written out
 		sx.Instrs(fn, func(in ssa.Instruction) {
 			c, ok := in.(*ssa.Call)
 			if !ok || !c.Call.IsInvoke() || !sx.Origins(c.Call.Value)["field:ResponseWriter.Origin"] {
@@ -463,7 +498,7 @@ func runC15(p *core.Prog, r *core.Report) {
 				cut := sx.Cut{Instrs: map[ssa.Instruction]bool{}}
 				sx.Instrs(fn, func(i2 ssa.Instruction) {
 					if st, ok := i2.(*ssa.Store); ok {
-						if fa, ok := st.Addr.(*ssa.FieldAddr); ok && sx.FieldOf(fa) == status && sx.Unspill(st.Val) == sx.Unspill(c.Call.Args[0]) {
+						if fa, ok := st.Addr.(*ssa.FieldAddr); ok && sx.FieldOf(fa) == status && sameVal(st.Val, c.Call.Args[0]) {
 							cut.Instrs[i2] = true
 						}
 					}
@@ -490,8 +525,16 @@ func runC15(p *core.Prog, r *core.Report) {
 				}
 				sx.Instrs(fn, func(i2 ssa.Instruction) {
 					if cc, ok := i2.(*ssa.Call); ok {
-						if callee := sx.StaticCallee(cc); callee != nil && rwMethods[callee] && callee.Name() == "WriteHeader" {
+						if callee := sx.StaticCallee(cc); callee != nil && rwMethods[sx.OrigFunc(callee)] && callee.Name() == "WriteHeader" {
 							cut.Instrs[i2] = true
+						}
+					}
+					// a status recorded in place (the forward-then-record pair is checked by the WriteHeader case above)
+					if st, ok := i2.(*ssa.Store); ok {
+						if fa, ok := st.Addr.(*ssa.FieldAddr); ok && sx.FieldOf(fa) == status {
+							if k, isC := sx.ConstInt(st.Val); !isC || k != 0 {
+								cut.Instrs[i2] = true
+							}
 						}
 					}
 				})
